@@ -2,3 +2,4 @@ import Driver.SExp
 import Driver.Decode
 import Driver.FilterEng
 import Driver.CacheEng
+import Driver.TreeEng
